@@ -106,7 +106,15 @@ def _u(c):
     return z3.StringVal(chr(c))
 
 
+Z3_MAXCHAR = 0x2FFFF  # z3's character sort ends here; StringVal() of a larger code point silently becomes a 9-10 character string
+
+
 def _range(a, b):
+    # clamp to z3's character domain: without this Range("(", chr(0x10FFFF)) has a multi-character
+    # upper bound and denotes the EMPTY set, which silently empties no_chars()/any_string()/complements
+    if a > Z3_MAXCHAR:
+        return z3.Empty(z3.ReSort(z3.StringSort()))
+    b = min(b, Z3_MAXCHAR)
     if a == b:
         return z3.Re(_u(a))
     return z3.Range(_u(a), _u(b))
@@ -117,6 +125,16 @@ _CATS = {
     "CATEGORY_SPACE": [(9, 13), (32, 32)],
     "CATEGORY_WORD": [(48, 57), (65, 90), (95, 95), (97, 122)],
 }
+
+
+_ND = None
+
+
+def _unicode_decimal_ranges():
+    global _ND
+    if _ND is None:
+        _ND = _norm([(c, c) for c in range(0x110000) if chr(c).isdecimal()])
+    return list(_ND)
 
 
 def _ranges_of_class(items, ascii_only, ignorecase, maxchar):
@@ -134,6 +152,13 @@ def _ranges_of_class(items, ascii_only, ignorecase, maxchar):
             base = nm.replace("CATEGORY_NOT_", "CATEGORY_")
             if base not in _CATS:
                 raise NotImplementedError(nm)
+            if not ascii_only and base == "CATEGORY_DIGIT":
+                # str pattern without re.ASCII: \d is Py_UNICODE_ISDECIMAL (general category Nd)
+                cr = _unicode_decimal_ranges()
+                if "NOT_" in nm:
+                    cr = _complement(cr, maxchar)
+                rs += cr
+                continue
             if not ascii_only and base != "CATEGORY_SPACE":
                 raise NotImplementedError(f"{nm} without re.ASCII / bytes pattern (unicode category)")
             if not ascii_only:
